@@ -118,7 +118,7 @@ Definition ml_attribute (a : attribute) : bool := wf_identifier (attr_id a) && m
 
 Definition ml_plain_entry (e : entry) : bool :=
   match e with
-  | CommentEntry c | GroupComment c | ResourceComment c => simple_comment c
+  | CommentEntry c | GroupComment c | ResourceComment c => wide_comment c
   | Message id (Some p) attrs None => wf_identifier id && ml_pattern p && forallb ml_attribute attrs
   | Message id None attrs None =>
       wf_identifier id && negb (match attrs with [] => true | _ => false end) && forallb ml_attribute attrs
@@ -127,7 +127,7 @@ Definition ml_plain_entry (e : entry) : bool :=
   end.
 
 Definition ml_entry (e : entry) : bool :=
-  ml_plain_entry (strip_comment e) && match entry_comment e with Some c => simple_comment c | None => true end.
+  ml_plain_entry (strip_comment e) && match entry_comment e with Some c => wide_comment c | None => true end.
 
 Definition ml_resource (t : resource) : bool := forallb ml_entry t.
 
@@ -1989,21 +1989,22 @@ Qed.
 
 (* C02 on the fragment: the printed text parses, without errors, to a tree that joins to the printed one;
    first with all that is known of the parser's tree *)
-Theorem parse_render_ml_split cs t : ml_resource t = true ->
+Theorem parse_render_ml_split cs t : ml_resource t = true -> last_comment_ok t = true ->
   exists t', parse (render cs t) = Done (t', []) /\ Forall2 (rel_entry srel) t' t.
 Proof.
-  intros Ht. apply (g_parse_render_rel ml_pok ml_value_layout srel cs t).
+  intros Ht Hlast. apply (g_parse_render_rel ml_pok ml_value_layout srel cs t).
   - intros ind els cs0 Hp Hind. destruct (ml_pattern_parts els Hp) as (_ & Hs & _).
     apply (render_value_ml_layout ind els cs0 Hs Hind).
   - intros bs els V T used c nx p n Hp. apply (get_pattern_ml bs els V T used c nx p n Hp).
   - intros els V Hp. apply (ml_value_layout_strip els V Hp).
   - rewrite ml_resource_g. exact Ht.
+  - exact Hlast.
 Qed.
 
-Theorem parse_render_ml cs t : ml_resource t = true ->
+Theorem parse_render_ml cs t : ml_resource t = true -> last_comment_ok t = true ->
   exists t', parse (render cs t) = Done (t', []) /\ map join_entry t' = t.
 Proof.
-  intros Ht. destruct (parse_render_ml_split cs t Ht) as (t' & E & Hrel). exists t'. split; [exact E|].
+  intros Ht Hlast. destruct (parse_render_ml_split cs t Ht Hlast) as (t' & E & Hrel). exists t'. split; [exact E|].
   apply jrel_entries. apply (rel_entries_mono srel jrel t' t); [intros x y [H _]; exact H | exact Hrel].
 Qed.
 
